@@ -84,7 +84,7 @@ def check(rep, tier, rng):
             rep.violation({"kind": "rejected-text-not-err", "text": c["text"], "ast": impl, "generate": g})
     rep.cov.update({"evaluations": 2 * len(cases), "distinct_nontrivial": len(distinct), "input_kinds": kinds, "outcomes": outcomes,
                     "traces_validated_against_impl": len(cases) - len(tie_breaks),
-                    "rule": "supported-subset specifications (2 layouts each), grammar-valid out-of-subset constructs (17 kinds), 1-2 token-level mutations "
+                    "rule": "supported-subset specifications (2 layouts each), grammar-valid out-of-subset constructs (18 kinds), 1-2 token-level mutations "
                             "of both and of the repository's golden inputs, typedef chains and cycles in every position (a request without an answer within 20 s is a violation); each text through Ast::new (compared with the model's outcome and panic site) and "
                             "Generator::generate; distinct = distinct (outcome class, generate class, construct kind, panic site)",
                     "samples": [{"text": c["text"][:300], "ast": i[:120], "generate": g[:60]} for c, (i, m), g in list(zip(cases, res, gen))[:: max(1, len(cases) // 6)]][:6]})
